@@ -257,7 +257,7 @@ func Run(r *vk.Run) {
 	keys := world.NewKeys("proposer")
 	shapes := []string{"xx", "ex", "xe"}
 	if !r.Quick() {
-		shapes = []string{"xx", "ex", "xe", "xxx", "eex", "xee", "xexx"}
+		shapes = []string{"xx", "ex", "xe", "xxx", "eex", "xee", "xexx", "exxe"}
 	}
 	type tuple struct {
 		p     *world.Produced
@@ -286,6 +286,9 @@ func Run(r *vk.Run) {
 		}
 	}
 	depth := 2
+	if !r.Quick() {
+		depth = 3
+	}
 	var enum func(p *world.Produced, base Case, d int) []bool
 	enum = func(p *world.Produced, base Case, d int) []bool {
 		var last []bool
